@@ -170,15 +170,18 @@ ABSENT = Sym('absent')
 
 class ListObj:
     kind = 'list'
-    __slots__ = ('items', 'more', 'shared', 'origin', 'source')
+    __slots__ = ('items', 'more', 'shared', 'origin', 'source', 'gen')
 
     def __init__(self, items=(), more=False, shared=False, origin=None,
-                 source=None):
+                 source=None, gen=False):
         self.items = tuple(items)
         self.more = more  # unknown further elements (summarised loop)
         self.shared = shared
         self.origin = origin
         self.source = source  # term this list was built from (list(x))
+        # a generator object (generator expression / generator function
+        # result): reading its elements exhausts it
+        self.gen = gen
 
     def same(self, o):
         return isinstance(o, ListObj) and self.more == o.more and \
@@ -895,7 +898,7 @@ class Interp:
         rets = []
         for o in outs:
             if o.kind == 'raise':
-                o.state.env = caller_env
+                o.state.env = dict(caller_env)
                 self.pending.append(o)
             else:
                 rets.append(o)
@@ -1125,6 +1128,7 @@ class Interp:
                 o = self.obj(state, src)
                 if o.kind == 'list' and not o.more:
                     seq = list(o.items)
+                    self.models._exhaust(self, src, o, state)
             if seq is None:
                 seq = self.models.static_sequence(self, src, state)
             if seq is None:
@@ -1427,7 +1431,9 @@ class Interp:
         if seq is None and isinstance(it, Ref):
             o_ = self.obj(state, it)
             if o_.kind == 'list' and not o_.more:
-                return self._for_guarded(st, state, frame, list(o_.items))
+                items_ = list(o_.items)
+                self.models._exhaust(self, it, o_, state)
+                return self._for_guarded(st, state, frame, items_)
         if seq is None:
             return self.run_loop(st, state, frame, it)
         outs = []
@@ -2200,9 +2206,47 @@ class Interp:
             raise Unsupported('assignment target %s at %s' %
                               (type(target).__name__, self.site(target)))
 
-    def set_attr(self, base, name, v, state, node):
+    def _descriptor(self, cls, name, state, method):
+        """The class-level descriptor object for ``name`` (an instance of a
+        class of the package that defines ``method``), or None."""
+        try:
+            cd = self.class_attr(cls, name)
+        except (AnalysisError, Unsupported):
+            return None
+        if isinstance(cd, Ref):
+            try:
+                dob = self.obj(state, cd)
+            except AnalysisError:
+                return None
+            if isinstance(dob, InstObj):
+                m = self.prog.find_method(dob.cls, method)
+                if m is not None:
+                    return cd, m
+        return None
+
+    def raw_set_attr(self, base, name, v, state, node):
+        o = self.obj(state, base)
+        self.effect('setattr', base, (name, o.shared), node)
+        if isinstance(o, InstObj):
+            state.store[base.id] = o.set(name, v)
+
+    def set_attr(self, base, name, v, state, node, raw=False):
         if isinstance(base, Ref):
             o = self.obj(state, base)
+            if isinstance(o, InstObj) and not raw:
+                # data descriptor on the class: its __set__ decides where
+                # the value goes
+                d = self._descriptor(o.cls, name, state, '__set__')
+                if d is not None:
+                    self.call_function(d[1], [d[0], base, v], {}, state,
+                                       node)
+                    return
+                # a __setattr__ defined in the package intercepts the store
+                sa = self.prog.find_method(o.cls, '__setattr__')
+                if sa is not None and not any(f is sa for f, _ in
+                                              self.stack):
+                    self.call_function(sa, [base, name, v], {}, state, node)
+                    return
             if isinstance(o, InstObj):
                 self.effect('setattr', base, (name, o.shared), node)
                 state.store[base.id] = o.set(name, v)
@@ -2511,6 +2555,13 @@ class Interp:
         if isinstance(base, Ref):
             o = self.obj(state, base)
             if isinstance(o, InstObj):
+                if not (name.startswith('__') and name.endswith('__')):
+                    d = self._descriptor(o.cls, name, state, '__get__')
+                    if d is not None and (
+                            name not in o.attrs or self.prog.find_method(
+                                self.obj(state, d[0]).cls, '__set__')):
+                        return self.call_function(
+                            d[1], [d[0], base, o.cls], {}, state, node)
                 if name in o.attrs:
                     v = o.attrs[name]
                     if isinstance(v, (Sym, tuple)) and state.kn.known and \
@@ -2631,7 +2682,10 @@ class Interp:
         return self._list_comp(node, state, frame)
 
     def ex_GeneratorExp(self, node, state, frame):
-        return self._list_comp(node, state, frame)
+        v = self._list_comp(node, state, frame)
+        if isinstance(v, Ref) and v.id in state.store:
+            state.store[v.id].gen = True
+        return v
 
     def _list_comp(self, node, state, frame):
         items, more = self._comprehension(node, node.elt, state, frame)
